@@ -313,10 +313,18 @@ def canon(x, root):
 def add_local_findings(rep, check_dir):
     """Open findings delivered with the check (checks/<ID>/findings.jsonl) count as known until the maintainer merges them."""
     path = os.path.join(check_dir, "findings.jsonl")
+    merged = set()
+    kf = os.path.join(os.path.dirname(os.path.dirname(os.path.abspath(__file__))), "known_findings.jsonl")
+    if os.path.exists(kf):
+        for line in open(kf):
+            line = line.strip()
+            if line and not line.startswith("#"):
+                f = json.loads(line)
+                merged.add((f.get("property"), f.get("deviation")))          # the merged record (open or fixed) wins
     if os.path.exists(path):
         for line in open(path):
             line = line.strip()
             if line and not line.startswith("#"):
                 f = json.loads(line)
-                if f.get("property") == rep.prop and f.get("status") == "open":
+                if f.get("property") == rep.prop and f.get("status") == "open" and (f["property"], f["deviation"]) not in merged:
                     rep.open.setdefault(f["deviation"], f)
